@@ -158,6 +158,22 @@ def write_replay(prop, seed, case, viol, result, n=0):
         'digest': result.get('digest') if result else None,
         'case': case,
     }
+    # for the reader: the tail of the scheduler / fault event log of the failing run (not needed for replay)
+    try:
+        import tempfile
+        tf = tempfile.NamedTemporaryFile(prefix='verif-trace-', suffix='.txt', delete=False)
+        tf.close()
+        os.environ['VERIF_DUMP_EVENTS'] = tf.name
+        try:
+            _run_one(get_check(prop), json.loads(json.dumps(case)))
+        finally:
+            os.environ.pop('VERIF_DUMP_EVENTS', None)
+        lines = Path(tf.name).read_text().splitlines()
+        os.unlink(tf.name)
+        doc['trace_tail'] = lines[-250:]
+        doc['trace_events'] = len(lines)
+    except BaseException as e:  # noqa
+        doc['trace_tail'] = [f'(trace not recorded: {e!r})']
     path.write_text(json.dumps(doc, indent=1, default=repr))
     return path
 
@@ -165,6 +181,7 @@ def write_replay(prop, seed, case, viol, result, n=0):
 def check(prop, tier, *, base_seed=None, budget_s=None, max_runs=None, workers=None):
     from . import native
     native.build()
+    native.import_replicat()       # before any check module pulls replicat in: the parent minimises with the same source as the workers
     mod = get_check(prop)
     base_seed = int(os.environ.get('VERIF_SEED', '1')) if base_seed is None else base_seed
     tiers = getattr(mod, 'TIERS', {})
